@@ -176,11 +176,19 @@ function runOp(parsers, named, op) {
         throw e;
       }
     }
+    case "parse2": {
+      // idempotence: parse the parsed data again
+      const v = parseVal(op.v);
+      const d = p.parse(v, opts(op));
+      return "ok:" + showVal(p.parse(d, opts(op)));
+    }
     case "printErrors": {
       const v = parseVal(op.v);
       const r = p.safeParse(v, opts(op));
       if (r.success) return "ok";
-      return "msg:" + I.printErrors(r.errors) + "|again:" + (I.printErrors(r.errors) === I.printErrors(r.errors));
+      const m1 = I.printErrors(r.errors);
+      const m2 = I.printErrors(r.errors);
+      return (m1 === m2 ? "same:" : "DIFFERENT:") + m1;
     }
     case "schema":
       return stable(p.schema());
